@@ -31,7 +31,12 @@ def synth_arg(name, ann, variant):
                     await asyncio.get_running_loop().create_future()     # still busy when the subscription is dropped
                 return 4242 if ("int" in s and variant != 2) else None
             return cb
-        return lambda *a, **k: None
+
+        def scb(*a, **k):
+            if variant == 7:
+                raise RuntimeError("the application's callback failed")
+            return None
+        return scb
     variant = min(variant, 1) if "Callable" not in s else variant
     optional = "None" in s
     if optional and variant == 0:
@@ -137,6 +142,19 @@ async def sweep_method(loop, net, mname, variant):
             note_handlers()
     except Exception as e:  # noqa
         outcome = "raised:" + type(e).__name__
+    # a subscription is exercised: one message of every class it registered for, with every boolean field set (e.g. `once`), then a
+    # plain one; with variant 7 the application's synchronous callbacks raise (the first raising callback ends the session, as with
+    # asyncio's transports)
+    if outcome == "ok" and subscribed and not inspect.isawaitable(result):
+        for cname in sorted(subscribed):
+            cls = getattr(pb, cname, None)
+            if cls is None:
+                continue
+            flags = {fd.name: True for fd in cls.DESCRIPTOR.fields if fd.type == 8 and not fd.is_repeated}
+            for m in ([cls(**flags)] if flags else []) + [cls()]:
+                if not tr.closing:
+                    tr.feed(simnet.plain_msg(m))
+                    await simnet.drain(loop)
     if mname == "subscribe_voice_assistant" and outcome == "ok":
         tr.feed(simnet.plain_msg(pb.VoiceAssistantRequest(start=True, conversation_id="c")))
         await simnet.drain(loop)
@@ -349,7 +367,8 @@ def run(rep, tier, seed):
         has_coro_cb = "Coroutine" in str(inspect.signature(getattr(APIClient, mname)))
         is_async = inspect.iscoroutinefunction(getattr(APIClient, mname))
         # 2 / 3 / 4: asynchronous handlers return nothing / raise / are still running at unsubscribe; 5 / 6: a silent device (time-out / cancelled)
-        for variant in ((0, 1, 2, 3, 4) if has_coro_cb else (0, 1)) + ((5, 6) if is_async else ()):
+        has_cb = "Callable" in str(inspect.signature(getattr(APIClient, mname)))
+        for variant in ((0, 1, 2, 3, 4) if has_coro_cb else (0, 1)) + ((5, 6) if is_async else ()) + ((7,) if has_cb else ()):    # 7: synchronous callbacks raise
             def go(loop, mname=mname, variant=variant):
                 net = simnet.Net(loop)
 
